@@ -128,9 +128,15 @@ type inputFile struct {
 	Selftest   bool         `json:"selftest"`
 }
 
+// nesting depth 1: s i d b; 2: n.x; 3 (the engine's default maximum): n.y.z; tooDeep has depth 4 and must be refused
+const (
+	maxDepthField = "n.y.z"
+	tooDeep       = "n.y.z.w"
+)
+
 func typeOf(f string) string {
 	switch f {
-	case "s":
+	case "s", "n.y.z", tooDeep:
 		return "STRING"
 	case "i", "n.x":
 		return "INTEGER"
@@ -255,7 +261,7 @@ func mustStruct(m map[string]interface{}) *structpb.Struct {
 func (c *class) doc(vals map[string]int, stamp int) *structpb.Struct {
 	fs := map[string]*structpb.Value{}
 	for f, v := range vals {
-		if f == "n.x" {
+		if strings.HasPrefix(f, "n.") {
 			continue
 		}
 		switch {
@@ -266,22 +272,55 @@ func (c *class) doc(vals map[string]int, stamp int) *structpb.Struct {
 			fs[f] = c.value(f, v, stamp)
 		}
 	}
+	// the object n holds the nested paths n.x (depth 2) and n.y.z (depth 3)
+	nf := map[string]*structpb.Value{}
 	if v, has := vals["n.x"]; has {
 		switch {
-		case v == -1: // four ways not to have n.x
-			switch stamp % 4 {
+		case v == 0:
+			nf["x"] = structpb.NewNullValue()
+		case v > 0:
+			nf["x"] = c.value("n.x", v, stamp)
+		}
+	}
+	if v, has := vals[maxDepthField]; has {
+		switch {
+		case v == 0:
+			nf["y"] = structpb.NewStructValue(&structpb.Struct{Fields: map[string]*structpb.Value{"z": structpb.NewNullValue(), "q": structpb.NewNumberValue(float64(stamp))}})
+		case v > 0:
+			nf["y"] = structpb.NewStructValue(&structpb.Struct{Fields: map[string]*structpb.Value{"z": c.value(maxDepthField, v, stamp),
+				"zz": structpb.NewStringValue("sibling"), "w": structpb.NewStructValue(mustStruct(map[string]interface{}{"z": "deeper"}))}})
+		default: // seven ways not to have n.y.z below an object n: no y, an object without z, a non-object at the intermediate level
+			switch (stamp / 2) % 7 {
+			case 1:
+				nf["y"] = structpb.NewStructValue(mustStruct(map[string]interface{}{}))
+			case 2:
+				nf["y"] = structpb.NewStructValue(mustStruct(map[string]interface{}{"zz": "a", "Z": "a", "w": map[string]interface{}{"z": "a"}}))
+			case 3:
+				nf["y"] = structpb.NewNumberValue(7)
+			case 4:
+				nf["y"] = structpb.NewStringValue(c.str(1))
+			case 5:
+				nf["y"] = structpb.NewListValue(&structpb.ListValue{Values: []*structpb.Value{structpb.NewStructValue(mustStruct(map[string]interface{}{"z": "a"}))}})
+			case 6:
+				nf["y"] = structpb.NewNullValue()
+			}
+		}
+	}
+	_, hasX := vals["n.x"]
+	_, hasZ := vals[maxDepthField]
+	if hasX || hasZ {
+		if len(nf) == 0 {
+			switch stamp % 4 { // four ways not to have an object n with anything in it
 			case 1:
 				fs["n"] = structpb.NewStructValue(mustStruct(map[string]interface{}{}))
 			case 2:
-				fs["n"] = structpb.NewStructValue(mustStruct(map[string]interface{}{"y": "x", "xx": 1}))
+				fs["n"] = structpb.NewStructValue(mustStruct(map[string]interface{}{"xx": 1, "y.z": "dotted key, not a path", "z": "a"}))
 			case 3:
 				fs["n"] = structpb.NewNumberValue(5)
 			}
-		case v == 0:
-			fs["n"] = structpb.NewStructValue(&structpb.Struct{Fields: map[string]*structpb.Value{"x": structpb.NewNullValue(), "z": structpb.NewNumberValue(float64(stamp))}})
-		default:
-			fs["n"] = structpb.NewStructValue(&structpb.Struct{Fields: map[string]*structpb.Value{"x": c.value("n.x", v, stamp),
-				"z": structpb.NewListValue(&structpb.ListValue{Values: []*structpb.Value{structpb.NewStringValue(c.text[stamp%len(c.text)])}})}})
+		} else {
+			nf["t"] = structpb.NewListValue(&structpb.ListValue{Values: []*structpb.Value{structpb.NewStringValue(c.text[stamp%len(c.text)])}})
+			fs["n"] = structpb.NewStructValue(&structpb.Struct{Fields: nf})
 		}
 	}
 	// payload: everything else a document may carry
@@ -667,6 +706,20 @@ func (r *run) checkSearch(st *stT, what string, q [][]cmpT, ob []ordT, off, lim 
 			anyBad = true
 		}
 	}
+	if len(res) > 0 {
+		for _, g := range q {
+			for _, cm := range g {
+				if cm.F == maxDepthField {
+					r.count("maxdepth:search-returns-documents:" + cm.Op)
+				}
+			}
+		}
+		for _, o := range ob {
+			if o.F == maxDepthField {
+				r.count("maxdepth:orderby")
+			}
+		}
+	}
 	if !anyBad {
 		return true
 	}
@@ -689,6 +742,15 @@ func (r *run) checkSearch(st *stT, what string, q [][]cmpT, ob []ordT, off, lim 
 }
 
 var osStat = os.Stat
+
+func contains2(l []string, x string) bool {
+	for _, y := range l {
+		if y == x {
+			return true
+		}
+	}
+	return false
+}
 
 func contains(l []int, x int) bool {
 	for _, y := range l {
@@ -1035,6 +1097,20 @@ func (r *run) exec(s *step) {
 			}
 		}
 	case "addfield":
+		if s.F == tooDeep {
+			// nested deeper than the engine's maximum: to be refused; an engine that accepts it is put back in step here
+			// (the directed probe shows what the accepted field does to searches)
+			for _, c := range r.colls {
+				err := r.a.AddField(c.name, &protomodel.Field{Name: s.F, Type: protoType(s.F)})
+				if err == nil {
+					r.count("toodeep:addfield-accepted")
+					vh.Must(r.a.RemoveField(c.name, s.F), "remove the too deep field")
+				} else {
+					r.count("toodeep:addfield-refused")
+				}
+			}
+			return
+		}
 		for _, c := range r.colls {
 			err := r.a.AddField(c.name, &protomodel.Field{Name: s.F, Type: protoType(s.F)})
 			if err == nil && c.kind == kindFull {
@@ -1168,6 +1244,13 @@ func (r *run) exec(s *step) {
 		}
 		if !real[0] && want {
 			r.count("insert:rejected-where-the-design-accepts")
+		}
+		if !real[0] && !want && r.prev != nil {
+			for _, x := range r.prev.Ix {
+				if x.Uq && contains2(x.Fs, maxDepthField) {
+					r.count("maxdepth:unique-index-refused-duplicate")
+				}
+			}
 		}
 		if real[0] != s.Ok {
 			r.count("stopped:decision-differs:insert")
@@ -1404,6 +1487,56 @@ func probe(dir string, res *vh.Result, pairs int) {
 	} else {
 		vh.Fatalf("probe: %d revisions", len(revs))
 	}
+	// (1c) nested paths at the depth boundary: a field with the maximum number of levels (3) is a column like any other;
+	// a field one level deeper must be refused, not accepted and never extracted
+	deepDoc := func(v float64) *structpb.Struct {
+		return mustStruct(map[string]interface{}{"a": map[string]interface{}{"b": map[string]interface{}{"c": v, "cc": map[string]interface{}{"d": v}, "c.d": "dotted key"}}})
+	}
+	qd := func(coll, f string, v float64) *protomodel.Query {
+		q := one(f, protomodel.ComparisonOperator_EQ, structpb.NewNumberValue(v))
+		q.CollectionName = coll
+		return q
+	}
+	vh.Must(e.CreateCollection(ctx, "c19", "m3", "", []*protomodel.Field{{Name: "a.b.c", Type: protomodel.FieldType_INTEGER}},
+		[]*protomodel.Index{{Fields: []string{"a.b.c"}, IsUnique: true}}), "create collection with a 3-level field")
+	_, _, err = e.InsertDocument(ctx, "c19", "m3", deepDoc(7))
+	vh.Must(err, "insert")
+	vh.Must(st.WaitForIndexingUpto(ctx, st.LastPrecommittedTxID()), "wait")
+	res.Evaluations += 2
+	if n, err := e.CountDocuments(ctx, qd("m3", "a.b.c", 7), 0); err != nil || n != 1 {
+		res.Violate("Search:field-of-maximum-nesting-depth:not-extracted", fmt.Sprintf("field a.b.c (3 levels = the maximum), document {a:{b:{c:7}}}: a.b.c = 7 counts %d documents (%v)", n, err),
+			map[string]interface{}{"probe": "depth"})
+	} else {
+		res.Count("maxdepth:probe-search-finds-document", 1)
+	}
+	if _, _, err = e.InsertDocument(ctx, "c19", "m3", deepDoc(7)); err == nil {
+		res.Violate("InsertDocument:unique-index-on-field-of-maximum-nesting-depth:duplicate-admitted", "unique index on a.b.c: {a:{b:{c:7}}} accepted twice", map[string]interface{}{"probe": "depth"})
+	} else {
+		res.Count("maxdepth:probe-unique-index-refuses-duplicate", 1)
+	}
+	tooDeepCheck := func(coll, how string) {
+		_, _, err := e.InsertDocument(ctx, "c19", coll, mustStruct(map[string]interface{}{"a": map[string]interface{}{"b": map[string]interface{}{"c": map[string]interface{}{"d": 7}}}}))
+		vh.Must(err, "insert")
+		if n, err := e.CountDocuments(ctx, qd(coll, "a.b.c.d", 7), 0); err != nil || n != 1 {
+			res.Violate(how+":field-deeper-than-maximum-nesting:accepted-but-never-extracted",
+				fmt.Sprintf("%s accepts the field a.b.c.d (4 levels, maximum 3); document {a:{b:{c:{d:7}}}} is then not found by a.b.c.d = 7 (%d documents, %v)", how, n, err),
+				map[string]interface{}{"probe": "depth"})
+		}
+	}
+	if err = e.CreateCollection(ctx, "c19", "m4", "", []*protomodel.Field{{Name: "a.b.c.d", Type: protomodel.FieldType_INTEGER}}, nil); err == nil {
+		res.Count("toodeep:probe-createcollection-accepted", 1)
+		tooDeepCheck("m4", "CreateCollection")
+	} else {
+		res.Count("toodeep:probe-createcollection-refused", 1)
+	}
+	vh.Must(e.CreateCollection(ctx, "c19", "m5", "", nil, nil), "create")
+	if err = e.AddField(ctx, "c19", "m5", &protomodel.Field{Name: "a.b.c.d", Type: protomodel.FieldType_INTEGER}); err == nil {
+		res.Count("toodeep:probe-addfield-accepted", 1)
+		tooDeepCheck("m5", "AddField")
+	} else {
+		res.Count("toodeep:probe-addfield-refused", 1)
+	}
+	res.Evaluations += 2
 	// (2) unique index, sequential inserts of the same key without waiting for the indexer
 	vh.Must(e.CreateCollection(ctx, "c19", "u", "", []*protomodel.Field{{Name: "i", Type: protomodel.FieldType_INTEGER}},
 		[]*protomodel.Index{{Fields: []string{"i"}, IsUnique: true}}), "create")
